@@ -1046,6 +1046,8 @@ class ExprMixin(object):
             return FALSE
         if isinstance(v, (Ref, TupleVal, FuncVal)):
             return FALSE
+        if isinstance(v, App) and v.op in ("cat", "str", "join", "fmt", "repr", "float", "Decimal", "tuple"):
+            return FALSE  # a built string / number is an object, never None
         if isinstance(v, (App, Opaque)):
             return App("isnone", (v,))
         return FALSE
@@ -1176,6 +1178,12 @@ class ExprMixin(object):
                 for items, n in ((ia, b), (ib, a)):
                     if items is not None and isinstance(n, Const) and isinstance(n.v, int) and not isinstance(n.v, bool):
                         return self.alloc(st, ListObj(items * max(n.v, 0)))
+                    gs = getattr(n, "len_guards", None)
+                    if items is not None and gs is not None and len(items) == 1:
+                        # [x] * len(seq) for a sequence with conditionally present elements: one
+                        # copy of x per element that is present
+                        g0, x0 = items[0]
+                        return self.alloc(st, ListObj([(mk_and([g0, g]), x0) for g in gs]))
         # discrete int arithmetic (digits, indexes)
         if const_int_like(a) and const_int_like(b) and fo.can_fold([a, b]):
             f = {
